@@ -23,8 +23,24 @@ pub(crate) trait ToFileTime {
     fn to_file_time(&self) -> FileTime;
 }
 
+/// Split a timestamp into whole seconds, rounded towards negative infinity, and
+/// non-negative nanoseconds: the `timespec` form used by the filesystem and by the index.
+///
+/// For times before 1970 with a fractional part, jiff reports a negative
+/// `subsec_nanosecond`.
+pub(crate) fn floor_seconds_and_nanos(t: &Timestamp) -> (i64, u32) {
+    let mut seconds = t.as_second();
+    let mut nanos = t.subsec_nanosecond();
+    if nanos < 0 {
+        seconds -= 1;
+        nanos += 1_000_000_000;
+    }
+    (seconds, nanos.cast_unsigned())
+}
+
 impl ToFileTime for Timestamp {
     fn to_file_time(&self) -> FileTime {
-        FileTime::from_unix_time(self.as_second(), self.subsec_nanosecond().cast_unsigned())
+        let (seconds, nanos) = floor_seconds_and_nanos(self);
+        FileTime::from_unix_time(seconds, nanos)
     }
 }
